@@ -11,11 +11,13 @@ import (
 	"github.com/bool64/cache"
 
 	"verif/vclock"
+	"verif/vsched"
 )
 
 // C10 — every entry's expiry lies within the documented TTL bounds (DESIGN §C10).
 
 type c10Cell struct {
+	Front   int     `json:"front,omitempty"` // Level "failover": front-end index
 	Backend string  `json:"backend"`
 	Jitter  float64 `json:"jitter"` // -1 off, 0 default(0.1), 0.5, 1
 	Level   string  `json:"level"`  // config | context | both | unlimited | unlimited+context
@@ -34,7 +36,65 @@ func c10Cells(tier string) []Cell {
 		}
 	}
 
+	// The same bounds when the write is issued by Failover on behalf of a caller whose context carries the TTL
+	// (cold miss, sync and background update of a stale value).
+	for front := 0; front < 3; front++ {
+		cells = append(cells, Cell{ID: c10Cell{Front: front, Backend: frontNames[front], Jitter: -1, Level: "failover"}.id()})
+	}
+
 	return cells
+}
+
+// c10Failover: caller TTL x path; the stored entry must expire exactly at t + caller TTL (jitter off).
+func c10Failover(cc c10Cell, env *Env) CellResult {
+	res := CellResult{Exhaustive: true, Outcomes: map[string]int{}}
+	seen := map[string]bool{}
+
+	for _, ttlSec := range []int{10, 45, 3600, 86400} {
+		for _, init := range []string{"A", "S", "T"} {
+			for _, su := range []bool{false, true} {
+				cfg := FCfg{Front: cc.Front, SU: su, MS: true, Init: init, FailC: "0", Script: "o", Threads: [][]GOp{{{Key: 0, TTL: ttlSec}}}}
+
+				var h *fh
+
+				body := func() {
+					h = newFH(cfg)
+					h.body()
+				}
+
+				st := vsched.Explore(vsched.Options{PreemptionBound: -1, EnvBound: 0, HBCache: true, Deadline: env.Deadline}, body, func(r *vsched.Result) bool {
+					if r.Deadlock || r.Panic != nil {
+						res.Violations = append(res.Violations, Violation{Signature: "C10 failover fatal", Detail: fmt.Sprintf("deadlock=%v panic=%v", r.Deadlock, r.Panic), Choices: r.Choices()})
+						return false
+					}
+
+					t, isNil, at, found := h.front.Peek(h.keys[0])
+					want := vclock.NowQuiet().Add(time.Duration(ttlSec) * time.Second)
+
+					if !found || isNil || t.O != "b" || !at.Equal(want) {
+						sig := fmt.Sprintf("C10 %s via-failover expiry init=%s su=%v", frontNames[cc.Front], init, su)
+						if !seen[sig] {
+							seen[sig] = true
+							res.Violations = append(res.Violations, Violation{Signature: sig, Choices: r.Choices(), Trace: h.formatLog(),
+								Detail: fmt.Sprintf("Get with caller TTL %ds on an entry in state %s: stored entry %v expires at now%+v (found=%v), want exactly now+%ds", ttlSec, init, t, at.Sub(vclock.NowQuiet()), found, ttlSec)})
+						}
+					}
+
+					res.Outcomes["failover/"+init]++
+
+					return true
+				})
+
+				res.Execs += st.Execs
+				res.States += st.HBStates
+				res.Transitions += st.Transitions
+			}
+		}
+	}
+
+	res.Sample = map[string]interface{}{"level": "failover", "front": frontNames[cc.Front], "caller_ttls_s": []int{10, 45, 3600, 86400}}
+
+	return res
 }
 
 func c10TTLs(tier string) []time.Duration {
@@ -266,6 +326,10 @@ func c10Cases(cc c10Cell, tier string) []c10Case {
 func c10Run(c Cell, env *Env) CellResult {
 	var cc c10Cell
 	_ = json.Unmarshal([]byte(c.ID), &cc)
+
+	if cc.Level == "failover" {
+		return c10Failover(cc, env)
+	}
 
 	res := CellResult{Exhaustive: true, Outcomes: map[string]int{}}
 
